@@ -1,5 +1,53 @@
 package c06
 
-import "github.com/magisterquis/curlrevshell/verifharness/mon"
+import (
+	"runtime"
+	"time"
 
-func stress(r *mon.Run) {}
+	"github.com/anishathalye/porcupine"
+
+	"github.com/magisterquis/curlrevshell/verifharness/mon"
+	"github.com/magisterquis/curlrevshell/verifharness/mon/bk"
+)
+
+// stress: 2-4 bidirectional clients (sometimes with a unidirectional one)
+// race without gates; the boundary history is judged by porcupine: a half is
+// admissible only next to the other half of the same request.
+func stress(r *mon.Run) {
+	n := r.N(2000, 40000)
+	mon.Parallel(n, runtime.NumCPU(), func(i int) {
+		if !r.Want("stress", i) {
+			return
+		}
+		rng := r.Rng("stress", i)
+		plan := bk.StressPlan{Workers: 2 + rng.IntN(3), Attempts: 1 + rng.IntN(2), Keys: []string{"u"}, IOShare: 8 + rng.IntN(3)}
+		w, res := bk.RunStress(rng, plan, 20*time.Second)
+		if w == nil {
+			r.Inconclusive("world")
+			return
+		}
+		r.Eval(1)
+		r.Count("stress_histories", 1)
+		r.Count("stress_operations", int64(len(res.Ops)))
+		switch res.Verdict {
+		case porcupine.Unknown:
+			r.Inconclusive("porcupine timed out on a stress history")
+		case porcupine.Illegal:
+			r.Violate("stress", i, "io-halves-of-distinct-requests", "free-running bidirectional clients: the recorded history has no serialisation in which every admitted half was next to nothing or to the other half of its own request", map[string]any{"history": res.Describe, "decision_order": res.OrderSig})
+		}
+		r.Distinct("stress:" + res.OrderSig)
+		adm := map[int]bool{}
+		for _, o := range res.Ops {
+			in := o.Input.(bk.StressOp)
+			if in.Kind == "attempt" && in.IO && o.Output.(bool) {
+				adm[in.Att] = true
+			}
+		}
+		if len(adm) >= 2 {
+			r.Count("stress_histories_with_two_admitted_bidirectional_clients", 1)
+		}
+		if i < 3 {
+			r.Sample("stress", map[string]any{"decision_order": res.OrderSig, "ops": len(res.Ops)})
+		}
+	})
+}
